@@ -61,7 +61,8 @@ def install_contract():
         old = np.asarray(OLD.before, dtype=float).reshape(shape)
         new = np.asarray(result, dtype=float).reshape(shape)
         back = np.moveaxis(np.tensordot(M, new, axes=(1, d + 1)), 0, d + 1)
-        scale = max(1.0, float(np.max(np.abs(old)))) * max(1.0, float(np.max(np.abs(M)))) * max(1.0, float(np.max(np.abs(new))))
+        s0 = float(np.max(np.abs(old))) or 1.0     # the relation is homogeneous in the values: judged relative to their magnitude
+        scale = s0 * max(1.0, float(np.max(np.abs(M)))) * max(1.0, float(np.max(np.abs(new))) / s0)
         res.close("collocation_postcondition", back, old, 1e-9 * scale * max(1, n), "C10_collocation_residual",
                   "hierarchize_poles_for_dim: collocation matrix times returned surpluses does not reproduce the pole values (n=%d, d=%d)" % (n, d),
                   {"n": n, "d": d})
@@ -78,9 +79,11 @@ def install_contract():
     _installed.append(True)
 
 
-def vec_hash_function(nout, seed, integer_valued=False):
+def vec_hash_function(nout, seed, integer_valued=False, scale=1.0):
     if integer_valued:
         return hooks.VFunction([hooks.comp_int_hash(seed + j) for j in range(nout)], integer_valued=True)
+    if scale != 1.0:
+        return hooks.VFunction([(lambda p, g=hooks.comp_hash(seed + j): scale * g(p)) for j in range(nout)])
     return hooks.VFunction([hooks.comp_hash(seed + j) for j in range(nout)])
 
 
@@ -150,8 +153,12 @@ def run_case(case, res):
     bk, a, b = hooks.gen_box(rng, d, ["unit", "unit", "shifted", "negative", "aniso", "dyadic"])
     an, bn = np.array(a), np.array(b)
     int_valued = rng.random() < 0.15     # a function whose values are integers (labels, counts) is a function too
-    f = vec_hash_function(nout, case["seed"], int_valued)
-    cfg = {"kind": kind, "d": d, "p": p, "nout": nout, "a": a, "b": b, "box": bk, "integer_valued_function": int_valued}
+    # functions of very small / large magnitude (all relations are homogeneous in f)
+    fscale = 1.0 if (int_valued or rng.random() < 0.8) else rng.choice([1e-9, 1e-12, 1e-15, 1e6])
+    f = vec_hash_function(nout, case["seed"], int_valued, fscale)
+    if fscale != 1.0:
+        res.count("function_magnitude_not_one")
+    cfg = {"kind": kind, "d": d, "p": p, "nout": nout, "a": a, "b": b, "box": bk, "integer_valued_function": int_valued, "function_scale": fscale}
     if int_valued:
         res.count("integer_valued_function")
     res.sample = {"config": cfg}
@@ -252,12 +259,12 @@ def run_case(case, res):
     if pts:
         vals = interp(pts)
         exp = np.array([f.eval(q) for q in pts])
-        res.close("interpolate_reproduces_nodal_values", vals, exp, 1e-9 * max(1, max(npts)), "C10_interpolation_not_nodal:" + kind,
+        res.close("interpolate_reproduces_nodal_values", vals, exp, 1e-9 * max(1, max(npts)) * fscale, "C10_interpolation_not_nodal:" + kind,
                   "%s p=%d: interpolate() at the grid points differs from the function values" % (kind, p), cfg)
         # interpolate_grid on the grid's own coordinates must agree with interpolate on their cross product
         try:
             tv = interp_grid(coords)
-            ok = tv.shape == vals.shape and bool(np.all(np.abs(tv - vals) <= 1e-9 * max(1, max(npts))))
+            ok = tv.shape == vals.shape and bool(np.all(np.abs(tv - vals) <= 1e-9 * max(1, max(npts)) * fscale))
             res.check("interpolate_grid_consistent", ok, "C10_interpolate_grid_differs:" + ("local" if kind.startswith("local") else "global"),
                       "%s: interpolate_grid differs from interpolate on the same points (max %.3g)" % (
                           kind, float(np.max(np.abs(tv - vals))) if tv.shape == vals.shape else float("nan")), cfg)
